@@ -100,6 +100,9 @@ func compare(md string, what string, x, y obs) error {
 		return nil // historical generated code that drops unknown fields: bytes legitimately differ
 	}
 	nx, ny := model.NormalizeDeep(d, x.Det, nil), model.NormalizeDeep(d, y.Det, nil)
+	if !bytes.Equal(nx, ny) && onlyQuietBit(nx, ny) && pbt.ExcludeKnown("KF-reflection-float32-snan-quieted") {
+		return nil
+	}
 	if !bytes.Equal(nx, ny) {
 		return fmt.Errorf("%s: deterministic bytes differ (after unknown-tag normalisation):\n %x\n %x", what, nx, ny)
 	}
@@ -112,8 +115,10 @@ func compare(md string, what string, x, y obs) error {
 	if !x.SelfEq || !y.SelfEq {
 		return fmt.Errorf("%s: Equal(m, Clone(m)) = %v / %v", what, x.SelfEq, y.SelfEq)
 	}
-	if !bytes.Equal(model.NormalizeDeep(d, x.CloneDet, nil), model.NormalizeDeep(d, y.CloneDet, nil)) {
-		return fmt.Errorf("%s: Clone results differ", what)
+	if cx, cy := model.NormalizeDeep(d, x.CloneDet, nil), model.NormalizeDeep(d, y.CloneDet, nil); !bytes.Equal(cx, cy) {
+		if !(onlyQuietBit(cx, cy) && pbt.ExcludeKnown("KF-reflection-float32-snan-quieted")) {
+			return fmt.Errorf("%s: Clone results differ", what)
+		}
 	}
 	if x.OkB {
 		if x.Equal != y.Equal || x.EqualBA != y.EqualBA {
@@ -122,8 +127,10 @@ func compare(md string, what string, x, y obs) error {
 		if x.Equal != x.EqualBA {
 			return fmt.Errorf("%s: Equal not symmetric", what)
 		}
-		if !bytes.Equal(model.NormalizeDeep(d, x.MergeDet, nil), model.NormalizeDeep(d, y.MergeDet, nil)) {
-			return fmt.Errorf("%s: Merge results differ:\n %x\n %x", what, x.MergeDet, y.MergeDet)
+		if mx, my := model.NormalizeDeep(d, x.MergeDet, nil), model.NormalizeDeep(d, y.MergeDet, nil); !bytes.Equal(mx, my) {
+			if !(onlyQuietBit(mx, my) && pbt.ExcludeKnown("KF-reflection-float32-snan-quieted")) {
+				return fmt.Errorf("%s: Merge results differ:\n %x\n %x", what, x.MergeDet, y.MergeDet)
+			}
 		}
 	}
 	return nil
@@ -206,4 +213,44 @@ func TestDifferential(t *testing.T) {
 		Classes: func(c diffCase) []string { return []string{c.Source} },
 		Quick:   8000, Thorough: 200000,
 	})
+}
+
+// onlyQuietBit recognises the known finding: the two encodings have the same length and differ
+// only in bytes where one side has the float32 quiet-NaN bit (0x40 of the third byte of a fixed32
+// NaN, next byte 0x7f or 0xff) set and the other not. (The decoded snapshots were already found equal
+// with all NaNs in one class.)
+func onlyQuietBit(a, b []byte) bool {
+	if len(a) != len(b) {
+		return false
+	}
+	diff := 0
+	for i := range a {
+		if a[i] == b[i] {
+			continue
+		}
+		if a[i]^b[i] != 0x40 || i+1 >= len(a) || a[i+1]&0x7f != 0x7f || a[i]&0x80 == 0 {
+			return false
+		}
+		diff++
+	}
+	return diff > 0
+}
+
+func TestWitnessSNaN(t *testing.T) {
+	if pbt.Skip() {
+		t.Skip()
+	}
+	name := "goproto.proto.test.TestAllTypes"
+	fd := mcase.Desc(name).Fields().ByName("optional_float")
+	tag := byte(fd.Number()<<3 | 5)
+	in := []byte{tag, 0x01, 0x00, 0x80, 0x7f}
+	d := mcase.New(name, true)
+	if err := proto.Unmarshal(in, d.Interface()); err != nil {
+		t.Skip(err)
+	}
+	out, _ := proto.Marshal(d.Interface())
+	g := mcase.New(name, false)
+	proto.Unmarshal(in, g.Interface())
+	gout, _ := proto.Marshal(g.Interface())
+	pbt.Witness(t, "KF-reflection-float32-snan-quieted", bytes.Equal(gout, in) && !bytes.Equal(out, in), fmt.Sprintf("dynamicpb re-marshals %x as %x (generated type: %x)", in, out, gout))
 }
